@@ -292,6 +292,59 @@ func (hi *c01Hist) mutateDual(r *hx.Result, rng *hx.Rng, p0 *store.DualProof, s,
 	hi.probeDual(r, p, s, t, sa, ta, kind)
 }
 
+// flipConsumed: flip one bit of one term in a part of the proof that the verification of (s,t) MUST consume.
+// A verifier that still accepts does not check that term ("every proof term" alterations never verify).
+func (hi *c01Hist) flipConsumed(r *hx.Result, rng *hx.Rng, p0 *store.DualProof, s, t uint64) {
+	sh, th := p0.SourceTxHeader, p0.TargetTxHeader
+	type part struct {
+		name string
+		mut  func(p *store.DualProof) bool
+	}
+	flipIn := func(l [][32]byte) bool {
+		if len(l) == 0 {
+			return false
+		}
+		i := rng.Intn(len(l))
+		l[i] = flip32(rng, l[i])
+		return true
+	}
+	var parts []part
+	if s < th.BlTxID {
+		parts = append(parts, part{"inclusion", func(p *store.DualProof) bool { return flipIn(p.InclusionProof) }})
+	}
+	if sh.BlTxID > 0 && sh.BlTxID != th.BlTxID {
+		parts = append(parts, part{"consistency", func(p *store.DualProof) bool { return flipIn(p.ConsistencyProof) }})
+	}
+	if th.BlTxID > 0 {
+		parts = append(parts, part{"lastinclusion", func(p *store.DualProof) bool { return flipIn(p.LastInclusionProof) }})
+		parts = append(parts, part{"targetblalh", func(p *store.DualProof) bool { p.TargetBlTxAlh = flip32(rng, p.TargetBlTxAlh); return true }})
+	}
+	parts = append(parts, part{"linear", func(p *store.DualProof) bool { return p.LinearProof != nil && flipIn(p.LinearProof.Terms) }})
+	end := s
+	if th.BlTxID < end {
+		end = th.BlTxID
+	}
+	if end > sh.BlTxID+1 && p0.LinearAdvanceProof != nil {
+		parts = append(parts, part{"linearadvance-terms", func(p *store.DualProof) bool { return flipIn(p.LinearAdvanceProof.LinearProofTerms) }})
+		for k := range p0.LinearAdvanceProof.InclusionProofs {
+			k := k
+			parts = append(parts, part{fmt.Sprintf("linearadvance-inclusion[%d/%d]", k, len(p0.LinearAdvanceProof.InclusionProofs)), func(p *store.DualProof) bool {
+				return flipIn(p.LinearAdvanceProof.InclusionProofs[k])
+			}})
+		}
+	}
+	pt := parts[rng.Intn(len(parts))]
+	p := cloneDual(p0)
+	if !pt.mut(p) {
+		return
+	}
+	if hi.probeDual(r, p, s, t, hi.alhs[s], hi.alhs[t], "flip-consumed-"+pt.name) {
+		r.Fail("C01:VerifyDualProof:ignores-altered-term:"+strings.SplitN(pt.name, "[", 2)[0],
+			fmt.Sprintf("VerifyDualProof(s=%d,t=%d) still accepts after one bit of a term of the %s part was flipped: that term is not verified", s, t, pt.name),
+			map[string]interface{}{"op": dualTok(p, s, t, hi.alhs[s], hi.alhs[t])})
+	}
+}
+
 // attack template "forged last leaf": the target tree holds X != alh(s) at position s while the
 // target header (id s+1 .. s+k) chains linearly from the genuine alh(s).  Every sub-proof is generated
 // by a real scratch ahtree over the forged leaves, so each individual check passes; only a check that ties
@@ -362,6 +415,29 @@ func innerOf(h *store.TxHeader) [32]byte {
 	return sha256.Sum256(b)
 }
 
+// c01LegacyCase: the repository's own legacy dataset whose binary linking lags the linear chain
+// (txs 11..20 have BlTxID = 10): the only way to reach VerifyLinearAdvanceProof's loop and lag > 1.
+func c01LegacyCase(r *hx.Result, rng *hx.Rng, allPairs bool, probes int) error {
+	src := filepath.Join(repoDir(), "test", "data_long_linear_proof")
+	if _, err := os.Stat(src); err != nil {
+		r.Notes = append(r.Notes, "legacy dataset not found: "+err.Error())
+		return nil
+	}
+	r.NextCase()
+	dir := hx.TempDir("c01l")
+	defer os.RemoveAll(dir)
+	dst := filepath.Join(dir, "st")
+	if err := copyDir(src, dst); err != nil {
+		return err
+	}
+	st, err := store.Open(dst, store.DefaultOptions().WithSynced(false).WithMaxConcurrency(1).WithLogger(quietLogger()))
+	if err != nil {
+		return err
+	}
+	defer st.Close()
+	return c01Probe(r, rng, st, int(st.TxCount()), allPairs, probes, "legacy-lagging")
+}
+
 func c01StoreCase(r *hx.Result, rng *hx.Rng, n int, allPairs bool, probes int) error {
 	r.NextCase()
 	dir := hx.TempDir("c01")
@@ -378,7 +454,6 @@ func c01StoreCase(r *hx.Result, rng *hx.Rng, n int, allPairs bool, probes int) e
 	}
 	defer st.Close()
 	ctx := context.Background()
-	hi := &c01Hist{st: st, hdrs: make([]*store.TxHeader, n+1), alhs: make([][32]byte, n+1), n: uint64(n)}
 	for k := 1; k <= n; k++ {
 		tx, err := st.NewWriteOnlyTx(ctx)
 		if err != nil {
@@ -408,6 +483,11 @@ func c01StoreCase(r *hx.Result, rng *hx.Rng, n int, allPairs bool, probes int) e
 			return err
 		}
 	}
+	return c01Probe(r, rng, st, n, allPairs, probes, fmt.Sprintf("fresh-v%d", ver))
+}
+
+func c01Probe(r *hx.Result, rng *hx.Rng, st *store.ImmuStore, n int, allPairs bool, probes int, label string) error {
+	hi := &c01Hist{st: st, hdrs: make([]*store.TxHeader, n+1), alhs: make([][32]byte, n+1), n: uint64(n)}
 	r.Corr("c01 hist.new", "ok")
 	for k := 1; k <= n; k++ {
 		h, err := st.ReadTxHeader(uint64(k), false, false)
@@ -460,6 +540,9 @@ func c01StoreCase(r *hx.Result, rng *hx.Rng, n int, allPairs bool, probes int) e
 		for m := 0; m < nm; m++ {
 			hi.mutateDual(r, rng, p, pr.s, pr.t)
 		}
+		for m := 0; m < nm; m++ {
+			hi.flipConsumed(r, rng, p, pr.s, pr.t)
+		}
 		if rng.Chance(35) {
 			if err := hi.forgedLastLeaf(r, rng, pr.s); err != nil {
 				return err
@@ -497,7 +580,14 @@ func c01StoreCase(r *hx.Result, rng *hx.Rng, n int, allPairs bool, probes int) e
 		}
 		c01Entries(r, rng, st, tx)
 	}
-	r.Sample(map[string]interface{}{"kind": "store-history", "txs": n, "header_version": ver, "pairs": len(pairs)})
+	lagMax := uint64(0)
+	for k := 1; k <= n; k++ {
+		if l := uint64(k) - hi.hdrs[k].BlTxID; l > lagMax {
+			lagMax = l
+		}
+	}
+	r.Count(fmt.Sprintf("history.%s.maxlag=%d", label, lagMax))
+	r.Sample(map[string]interface{}{"kind": "store-history", "txs": n, "label": label, "max_lag": lagMax, "pairs": len(pairs)})
 	return nil
 }
 
@@ -695,6 +785,12 @@ func runC01(r *hx.Result, rng *hx.Rng, thorough bool, replay string) error {
 	exN, lives, lifeN, probes := 14, 6, 120, 25
 	if thorough {
 		exN, lives, lifeN, probes = 40, 30, 400, 80
+	}
+	if err := c01LegacyCase(r, rng.Fork(), true, 0); err != nil {
+		return fmt.Errorf("legacy dataset: %w", err)
+	}
+	if err := r.Flush(); err != nil {
+		return err
 	}
 	for n := 1; n <= exN; n++ {
 		if err := c01StoreCase(r, rng.Fork(), n, true, 0); err != nil {
